@@ -35,6 +35,165 @@ theorem loopIter_inv {decl : List Ty} {pass : Env → TC Pass}
       subst hout
       exact ⟨L0, hp, hle, fun _ _ s => s⟩
 
+/-- a statement without assignments leaves the locals as they are, however it ends -/
+theorem evalS_noassign : ∀ (n : Nat) (s : Stmt) (σ : Store) (st : State), assignsLocals s = false →
+    ∀ c st', evalS n P σ s st = (.ok c, st') → c.store = σ := by
+  intro n
+  induction n with
+  | zero => intro s σ st _ c st' h; simp [evalS, M.fail] at h
+  | succ n ih =>
+    intro s σ st hna c st' h
+    have lift : ∀ {α : Type} (m : M α) (f : α → M Ctl), (∀ a st1 c st', f a st1 = (.ok c, st') → c.store = σ) →
+        ∀ st c st', liftE σ m f st = (.ok c, st') → c.store = σ := by
+      intro α m f hf st c st' h
+      unfold liftE at h
+      cases hm : m st with
+      | mk r st1 =>
+        rw [hm] at h
+        cases r with
+        | ok a => exact hf a st1 c st' h
+        | error e => cases e <;> simp at h <;> (obtain ⟨rfl, _⟩ := h; rfl)
+    cases s with
+    | pass => simp [evalS, M.pure] at h; obtain ⟨rfl, _⟩ := h; rfl
+    | brk => simp [evalS, M.pure] at h; obtain ⟨rfl, _⟩ := h; rfl
+    | cont => simp [evalS, M.pure] at h; obtain ⟨rfl, _⟩ := h; rfl
+    | raise k => simp [evalS, M.pure] at h; obtain ⟨rfl, _⟩ := h; rfl
+    | decl x e => simp [assignsLocals] at hna
+    | assign x e => simp [assignsLocals] at hna
+    | infer x e => simp [assignsLocals] at hna
+    | expr e =>
+      simp only [evalS] at h
+      exact lift _ _ (fun a st1 c st' h => by simp [M.pure] at h; obtain ⟨rfl, _⟩ := h; rfl) st c st' h
+    | ret e =>
+      simp only [evalS] at h
+      exact lift _ _ (fun a st1 c st' h => by simp [M.pure] at h; obtain ⟨rfl, _⟩ := h; rfl) st c st' h
+    | setAttr o f e =>
+      simp only [evalS] at h
+      refine lift _ _ (fun a st1 c st' h => ?_) st c st' h
+      refine lift _ _ (fun a2 st2 c st' h => ?_) st1 c st' h
+      exact lift _ _ (fun a st1 c st' h => by simp [M.pure] at h; obtain ⟨rfl, _⟩ := h; rfl) st2 c st' h
+    | ite cnd t e =>
+      simp only [assignsLocals, Bool.or_eq_false_iff] at hna
+      simp only [evalS] at h
+      refine lift _ _ ?_ st c st' h
+      clear h
+      intro a st1 c st' h
+      split at h
+      · exact ih t σ st1 hna.1 c st' h
+      · exact ih e σ st1 hna.2 c st' h
+    | seq a b =>
+      simp only [assignsLocals, Bool.or_eq_false_iff] at hna
+      simp only [evalS, M.bind] at h
+      cases ha : evalS n P σ a st with
+      | mk r st1 =>
+        rw [ha] at h
+        cases r with
+        | error e => simp at h
+        | ok c1 =>
+          have h1 := ih a σ st hna.1 c1 st1 ha
+          cases c1 with
+          | normal σ1 => simp only [Ctl.store] at h1; subst h1; exact ih b _ st1 hna.2 c st' h
+          | ret v σ1 => simp [M.pure] at h; obtain ⟨rfl, _⟩ := h; exact h1
+          | brk σ1 => simp [M.pure] at h; obtain ⟨rfl, _⟩ := h; exact h1
+          | cont σ1 => simp [M.pure] at h; obtain ⟨rfl, _⟩ := h; exact h1
+          | exc f σ1 => simp [M.pure] at h; obtain ⟨rfl, _⟩ := h; exact h1
+    | «while» cnd b =>
+      simp only [assignsLocals] at hna
+      simp only [evalS] at h
+      refine lift _ _ ?_ st c st' h
+      clear h
+      intro a st1 c st' h
+      split at h
+      · simp only [M.bind] at h
+        cases hb : evalS n P σ b st1 with
+        | mk r st2 =>
+          rw [hb] at h
+          cases r with
+          | error e => simp at h
+          | ok c1 =>
+            have h1 := ih b σ st1 hna c1 st2 hb
+            cases c1 with
+            | normal σ1 =>
+              simp only [Ctl.store] at h1; subst h1
+              exact ih (.while cnd b) _ st2 (by simpa [assignsLocals] using hna) c st' h
+            | cont σ1 =>
+              simp only [Ctl.store] at h1; subst h1
+              exact ih (.while cnd b) _ st2 (by simpa [assignsLocals] using hna) c st' h
+            | brk σ1 => simp [M.pure] at h; obtain ⟨rfl, _⟩ := h; exact h1
+            | ret v σ1 => simp [M.pure] at h; obtain ⟨rfl, _⟩ := h; exact h1
+            | exc f σ1 => simp [M.pure] at h; obtain ⟨rfl, _⟩ := h; exact h1
+      · simp [M.pure] at h; obtain ⟨rfl, _⟩ := h; rfl
+    | tryS b kinds hd els fin hasFin =>
+      simp only [assignsLocals, Bool.or_eq_false_iff] at hna
+      obtain ⟨⟨⟨hb, hh⟩, he⟩, hf⟩ := hna
+      simp only [evalS, M.bind] at h
+      cases hbr : evalS n P σ b st with
+      | mk r st1 =>
+        rw [hbr] at h
+        cases r with
+        | error e => simp at h
+        | ok c1 =>
+          have h1 := ih b σ st hb c1 st1 hbr
+          simp only at h
+          cases h2r : tryStep (evalS n P) kinds hd els c1 st1 with
+          | mk r2 st2 =>
+            rw [h2r] at h
+            cases r2 with
+            | error e => simp at h
+            | ok c2 =>
+              have h2 : c2.store = σ := by
+                unfold tryStep at h2r
+                cases c1 with
+                | normal σ1 => simp only [Ctl.store] at h1; subst h1; exact ih els _ st1 he c2 st2 h2r
+                | ret v σ1 => simp [M.pure] at h2r; obtain ⟨rfl, _⟩ := h2r; exact h1
+                | brk σ1 => simp [M.pure] at h2r; obtain ⟨rfl, _⟩ := h2r; exact h1
+                | cont σ1 => simp [M.pure] at h2r; obtain ⟨rfl, _⟩ := h2r; exact h1
+                | exc f σ1 =>
+                  simp only [Ctl.store] at h1; subst h1
+                  cases f with
+                  | exc k =>
+                    simp only at h2r
+                    split at h2r
+                    · exact ih hd _ st1 hh c2 st2 h2r
+                    · simp [M.pure] at h2r; obtain ⟨rfl, _⟩ := h2r; rfl
+                  | typeError => simp [M.pure] at h2r; obtain ⟨rfl, _⟩ := h2r; rfl
+                  | attrError => simp [M.pure] at h2r; obtain ⟨rfl, _⟩ := h2r; rfl
+                  | unbound => simp [M.pure] at h2r; obtain ⟨rfl, _⟩ := h2r; rfl
+                  | stuck => simp [M.pure] at h2r; obtain ⟨rfl, _⟩ := h2r; rfl
+                  | timeout => simp [M.pure] at h2r; obtain ⟨rfl, _⟩ := h2r; rfl
+              simp only at h
+              unfold finStep at h
+              cases hasFin with
+              | false => simp [M.pure] at h; obtain ⟨rfl, _⟩ := h; exact h2
+              | true =>
+                simp only [if_true, M.bind] at h
+                rw [h2] at h
+                cases hfr : evalS n P σ fin st2 with
+                | mk r3 st3 =>
+                  rw [hfr] at h
+                  cases r3 with
+                  | error e => simp at h
+                  | ok c3 =>
+                    have h3 := ih fin σ st2 hf c3 st3 hfr
+                    cases c3 with
+                    | normal σ3 =>
+                      simp only [Ctl.store] at h3; subst h3
+                      simp [M.pure] at h; obtain ⟨rfl, _⟩ := h
+                      cases c2 <;> simp [Ctl.withStore, Ctl.store]
+                    | ret v σ3 => simp [M.pure] at h; obtain ⟨rfl, _⟩ := h; exact h3
+                    | brk σ3 => simp [M.pure] at h; obtain ⟨rfl, _⟩ := h; exact h3
+                    | cont σ3 => simp [M.pure] at h; obtain ⟨rfl, _⟩ := h; exact h3
+                    | exc f σ3 => simp [M.pure] at h; obtain ⟨rfl, _⟩ := h; exact h3
+
+/-- what a `while` statement guarantees from the checker's fixpoint frame `L` -/
+def WhileSpec (P : Prog) (C : Ctx) (L L' : Env) (rc : ERes) (rb : SRes) : State → Ctl → Prop :=
+  fun st' ctl => match ctl with
+    | .normal σ' => (∃ Γe, pushMap L' true rc.no = some Γe ∧ StoreOK P st'.heap C.decl Γe σ') ∨
+                    (∃ Γb, Γb ∈ rb.brks ∧ StoreOK P st'.heap C.decl Γb σ')
+    | .ret v σ' => hasTy P st'.heap v C.ret ∧ ∃ Γ', Γ' ∈ rb.rets ∧ StoreOK P st'.heap C.decl Γ' σ'
+    | .exc f σ' => Benign f ∧ ∃ Γ', Γ' ∈ L :: rb.excs ∧ StoreOK P st'.heap C.decl Γ' σ'
+    | _ => False
+
 /-- the loop itself, from the checker's fixpoint frame `L`: by induction on the fuel -/
 theorem while_ok (w : WF P) {n : Nat} (ihe : ∀ m, m ≤ n → ExprOK P tm m) (ihs : ∀ m, m ≤ n → StmtOK P tm m)
     {k : Nat} {C : Ctx} (hP : C.P = P) {c : Expr} {b : Stmt} {L L' : Env} {rc : ERes} {rb : SRes}
@@ -46,11 +205,7 @@ theorem while_ok (w : WF P) {n : Nat} (ihe : ∀ m, m ≤ n → ExprOK P tm m) (
     (hle : envLe P C.decl L' L = true)
     (hrecs : ∀ x, x ∈ rc.recs ++ rb.recs → x ∈ tm) :
     ∀ m, m ≤ n + 1 → ∀ (σ : Store) (st : State), StoreOK P st.heap C.decl L σ →
-      Sat P tm st (evalS m P σ (.while c b)) (fun st' ctl => match ctl with
-        | .normal σ' => (∃ Γe, pushMap L' true rc.no = some Γe ∧ StoreOK P st'.heap C.decl Γe σ') ∨
-                        (∃ Γb, Γb ∈ rb.brks ∧ StoreOK P st'.heap C.decl Γb σ')
-        | .ret v => hasTy P st'.heap v C.ret
-        | _ => False) := by
+      Sat P tm st (evalS m P σ (.while c b)) (WhileSpec P C L L' rc rb) := by
   intro m
   induction m with
   | zero => intro _ σ st _; simp only [evalS]; exact sat_fail trivial
@@ -58,7 +213,8 @@ theorem while_ok (w : WF P) {n : Nat} (ihe : ∀ m, m ≤ n → ExprOK P tm m) (
     intro hm σ st hst
     have hmn : m ≤ n := by omega
     simp only [evalS]
-    refine sat_bind (ihe m hmn k C L false true c rc σ st hP hrc (fun x hx => hrecs x (List.mem_append_left _ hx)) hst) ?_
+    refine sat_liftE (ihe m hmn k C L false true c rc σ st hP hrc (fun x hx => hrecs x (List.mem_append_left _ hx)) hst) ?_
+      (fun st1 e e1 hb => ⟨hb, L, by simp, hst.ext e1⟩)
     intro st1 v e1 hv
     cases htv : truthy v with
     | true =>
@@ -68,7 +224,10 @@ theorem while_ok (w : WF P) {n : Nat} (ihe : ∀ m, m ≤ n → ExprOK P tm m) (
       refine sat_bind (ihs m hmn k C Γt b rb σ st1 hP hrb (fun x hx => hrecs x (List.mem_append_right _ hx)) hstt) ?_
       intro st2 ctl e2 hctl
       cases ctl with
-      | ret u => exact sat_pure hctl
+      | ret u σ' => exact sat_pure hctl
+      | exc f σ' =>
+        obtain ⟨hb, Γx, hΓx, hstx⟩ := hctl
+        exact sat_pure ⟨hb, Γx, List.mem_cons_of_mem _ hΓx, hstx⟩
       | normal σ' =>
         obtain ⟨Γb, hΓb, hstb⟩ := hctl
         obtain ⟨Γ1, hΓ1, hst1⟩ := mergeEnvs_sound w hm1 (b := Γb) (by rw [← hΓb]; simp) hstb
@@ -92,6 +251,254 @@ theorem while_ok (w : WF P) {n : Nat} (ihe : ∀ m, m ≤ n → ExprOK P tm m) (
       obtain ⟨Γe, hΓe, hste⟩ := (hv.2.2 htv).push true hst2
       exact Or.inl ⟨Γe, hΓe, hste⟩
 
+theorem envsLe_sound {P : Prog} (w : WF P) {decl : List Ty} {l : List Env} {H Γ : Env} (hl : envsLe P decl l H = true)
+    (hΓ : Γ ∈ l) {h : Heap} {σ : Store} (s : StoreOK P h decl Γ σ) : StoreOK P h decl H σ := by
+  simp only [envsLe, List.all_eq_true] at hl
+  exact envLe_sound w (hl Γ hΓ) s
+
+theorem M_bind_assoc {α β γ : Type} (m : M α) (f : α → M β) (g : β → M γ) :
+    M.bind (M.bind m f) g = M.bind m (fun a => M.bind (f a) g) := by
+  funext st
+  simp only [M.bind]
+  cases m st with
+  | mk r st1 => cases r <;> rfl
+
+theorem sat_strengthen {α : Type} {st : State} {m : M α} {Q : State → α → Prop} {R : α → Prop}
+    (h : Sat P tm st m Q) (hr : ∀ a st', m st = (.ok a, st') → R a) : Sat P tm st m (fun st' a => Q st' a ∧ R a) := by
+  intro hi
+  have p := h hi
+  cases hm : m st with
+  | mk r st1 =>
+    rw [hm] at p
+    cases r with
+    | error e => exact p
+    | ok a => exact ⟨p.1, p.2.1, p.2.2, hr a st1 hm⟩
+
+/-- the try statement: handler state and finally state are the checker's (built from assignment snapshots); that
+    they cover every state an exception / return / jump really occurs in is what the `hole 5/6` checks of `tc`
+    establish -/
+theorem try_case (t : Typed P tm) {n : Nat} (ihn : EvalOK P tm n) {k : Nat} {C : Ctx} (hP : C.P = P) {Γ : Env}
+    {b : Stmt} {kinds : List Nat} {hd els fin : Stmt} {hasFin : Bool} {r : SRes} {σ : Store} {st : State}
+    (hst : StoreOK P st.heap C.decl Γ σ)
+    (htc : tcS (k + 1) C (some Γ) (.tryS b kinds hd els fin hasFin) = .ok r) (hrecs : ∀ x ∈ r.recs, x ∈ tm) :
+    Sat P tm st (evalS (n + 1) P σ (.tryS b kinds hd els fin hasFin)) (StmtSpec P C r) := by
+  subst hP
+  have w := t.wf
+  simp only [tcS, bind_ok, req_ok] at htc
+  obtain ⟨_, _, rb, hrb, mh, hmh, htc⟩ := htc
+  cases hH : mh.1 with
+  | none => rw [hH] at htc; simp at htc
+  | some H =>
+  rw [hH] at htc
+  simp only [bind_ok, req_ok] at htc
+  obtain ⟨_, hexH, rh, hrh, re, hre, mN, hmN, htc⟩ := htc
+  -- body, then handler / else: everything that can come out, before any finally clause
+  have stage2 : (∀ x ∈ rb.recs ++ rh.recs ++ re.recs, x ∈ tm) →
+      Sat C.P tm st (M.bind (evalS n C.P σ b) (tryStep (evalS n C.P) kinds hd els))
+        (StmtSpec C.P C { ((rb.join rh none).join re none) with out := mN.1 }) := by
+    intro hr3
+    refine sat_bind (ihn.stmt k C Γ b rb σ st rfl hrb
+      (fun x hx => hr3 x (List.mem_append_left _ (List.mem_append_left _ hx))) hst) ?_
+    intro st1 c1 e1 hc1
+    unfold tryStep
+    simp only [SRes.join]
+    cases c1 with
+    | normal σ1 =>
+      obtain ⟨Γb, hΓb, hstb⟩ := hc1
+      rw [hΓb] at hre
+      refine sat_mono (ihn.stmt k C Γb els re σ1 st1 rfl hre (fun x hx => hr3 x (List.mem_append_right _ hx)) hstb) ?_
+      intro st2 c2 _ hc2
+      cases c2 with
+      | normal σ2 =>
+        obtain ⟨Γe, hΓe, hste⟩ := hc2
+        exact mergeEnvs_sound w hmN (b := Γe) (by rw [← hΓe]; simp) hste
+      | ret u σ2 => obtain ⟨hu, Γx, hx, hsx⟩ := hc2; exact ⟨hu, Γx, List.mem_append_right _ hx, hsx⟩
+      | exc f σ2 => obtain ⟨hu, Γx, hx, hsx⟩ := hc2; exact ⟨hu, Γx, List.mem_append_right _ hx, hsx⟩
+      | brk σ2 => obtain ⟨Γx, hx, hsx⟩ := hc2; exact ⟨Γx, List.mem_append_right _ hx, hsx⟩
+      | cont σ2 => obtain ⟨Γx, hx, hsx⟩ := hc2; exact ⟨Γx, List.mem_append_right _ hx, hsx⟩
+    | ret u σ1 =>
+      obtain ⟨hu, Γx, hx, hsx⟩ := hc1
+      exact sat_pure ⟨hu, Γx, List.mem_append_left _ (List.mem_append_left _ hx), hsx⟩
+    | brk σ1 =>
+      obtain ⟨Γx, hx, hsx⟩ := hc1
+      exact sat_pure ⟨Γx, List.mem_append_left _ (List.mem_append_left _ hx), hsx⟩
+    | cont σ1 =>
+      obtain ⟨Γx, hx, hsx⟩ := hc1
+      exact sat_pure ⟨Γx, List.mem_append_left _ (List.mem_append_left _ hx), hsx⟩
+    | exc f σ1 =>
+      obtain ⟨hu, Γx, hx, hsx⟩ := hc1
+      have pass : Sat C.P tm st1 (M.pure (Ctl.exc f σ1))
+          (StmtSpec C.P C { out := mN.1, recs := rb.recs ++ rh.recs ++ re.recs, brks := rb.brks ++ rh.brks ++ re.brks,
+                            conts := rb.conts ++ rh.conts ++ re.conts, excs := rb.excs ++ rh.excs ++ re.excs,
+                            rets := rb.rets ++ rh.rets ++ re.rets, snaps := rb.snaps ++ rh.snaps ++ re.snaps }) :=
+        sat_pure ⟨hu, Γx, List.mem_append_left _ (List.mem_append_left _ hx), hsx⟩
+      cases f with
+      | exc kx =>
+        simp only
+        split
+        · -- caught: the handler starts from H, which covers the state at the raise point
+          have hstH := envsLe_sound w hexH hx hsx
+          refine sat_mono (ihn.stmt k C H hd rh σ1 st1 rfl hrh
+            (fun x hx => hr3 x (List.mem_append_left _ (List.mem_append_right _ hx))) hstH) ?_
+          intro st2 c2 _ hc2
+          cases c2 with
+          | normal σ2 =>
+            obtain ⟨Γe, hΓe, hste⟩ := hc2
+            exact mergeEnvs_sound w hmN (b := Γe) (by rw [← hΓe]; simp) hste
+          | ret u σ2 =>
+            obtain ⟨hu, Γy, hy, hsy⟩ := hc2
+            exact ⟨hu, Γy, List.mem_append_left _ (List.mem_append_right _ hy), hsy⟩
+          | exc f σ2 =>
+            obtain ⟨hu, Γy, hy, hsy⟩ := hc2
+            exact ⟨hu, Γy, List.mem_append_left _ (List.mem_append_right _ hy), hsy⟩
+          | brk σ2 => obtain ⟨Γy, hy, hsy⟩ := hc2; exact ⟨Γy, List.mem_append_left _ (List.mem_append_right _ hy), hsy⟩
+          | cont σ2 => obtain ⟨Γy, hy, hsy⟩ := hc2; exact ⟨Γy, List.mem_append_left _ (List.mem_append_right _ hy), hsy⟩
+        · exact pass
+      | typeError => exact pass
+      | attrError => exact pass
+      | unbound => exact pass
+      | stuck => exact pass
+      | timeout => exact pass
+  cases hasFin with
+  | false =>
+    simp only [Bool.not_false, if_true, pure_ok] at htc
+    subst htc
+    simp only [evalS]
+    rw [← M_bind_assoc (evalS n C.P σ b) (tryStep (evalS n C.P) kinds hd els) (finStep (evalS n C.P) fin false)]
+    have : (finStep (evalS n C.P) fin false) = fun c2 => M.pure c2 := by funext c2; simp [finStep]
+    rw [this]
+    refine sat_bind (stage2 (by simpa [SRes.join] using hrecs)) ?_
+    intro st2 c2 _ hc2
+    exact sat_pure hc2
+  | true =>
+    simp only [Bool.not_true, Bool.false_eq_true, if_false, bind_ok] at htc
+    obtain ⟨mA, hmA, htc⟩ := htc
+    cases hA : mA.1 with
+    | none => rw [hA] at htc; simp at htc
+    | some A =>
+    rw [hA] at htc
+    simp only [bind_ok, req_ok, pure_ok] at htc
+    obtain ⟨_, hcov, fA, hfA, _, hjump, fN, hfN, hr⟩ := htc
+    subst hr
+    simp only [SRes.join] at hrecs hcov hjump hfN hmA ⊢
+    simp only [evalS]
+    rw [← M_bind_assoc (evalS n C.P σ b) (tryStep (evalS n C.P) kinds hd els) (finStep (evalS n C.P) fin true)]
+    refine sat_bind (stage2 (fun x hx => hrecs x (List.mem_append_left _ (List.mem_append_left _ (by simpa [SRes.join] using hx))))) ?_
+    intro st2 c2 e2 hc2
+    simp only [SRes.join] at hc2
+    unfold finStep
+    simp only [if_true]
+    -- the finally clause from the abnormal state A
+    have abnormal : ∀ Γx, (Γx ∈ rb.excs ++ rh.excs ++ re.excs ∨ Γx ∈ rb.rets ++ rh.rets ++ re.rets ∨
+          Γx ∈ rb.brks ++ rh.brks ++ re.brks ∨ Γx ∈ rb.conts ++ rh.conts ++ re.conts) →
+        StoreOK C.P st2.heap C.decl Γx c2.store → Sat C.P tm st2 (evalS n C.P c2.store fin) (StmtSpec C.P C fA) := by
+      intro Γx hx hsx
+      have hbig : Γx ∈ (rb.excs ++ rh.excs ++ re.excs) ++ (rb.rets ++ rh.rets ++ re.rets) ++
+          (rb.brks ++ rh.brks ++ re.brks) ++ (rb.conts ++ rh.conts ++ re.conts) := by
+        rcases hx with h | h | h | h
+        · exact List.mem_append_left _ (List.mem_append_left _ (List.mem_append_left _ h))
+        · exact List.mem_append_left _ (List.mem_append_left _ (List.mem_append_right _ h))
+        · exact List.mem_append_left _ (List.mem_append_right _ h)
+        · exact List.mem_append_right _ h
+      exact ihn.stmt k C A fin fA c2.store st2 rfl hfA
+        (fun x hx => hrecs x (List.mem_append_left _ (List.mem_append_right _ hx))) (envsLe_sound w hcov hbig hsx)
+    cases c2 with
+    | normal σ2 =>
+      obtain ⟨ΓN, hΓN, hstN⟩ := hc2
+      simp only at hΓN
+      rw [hΓN] at hfN
+      refine sat_bind (ihn.stmt k C ΓN fin fN σ2 st2 rfl hfN (fun x hx => hrecs x (List.mem_append_right _ hx)) hstN) ?_
+      intro st3 c3 _ hc3
+      cases c3 with
+      | normal σ3 => exact sat_pure hc3
+      | ret u σ3 =>
+        obtain ⟨hu, Γy, hy, hsy⟩ := hc3
+        exact sat_pure ⟨hu, Γy, List.mem_append_right _ hy, hsy⟩
+      | exc f σ3 =>
+        obtain ⟨hu, Γy, hy, hsy⟩ := hc3
+        exact sat_pure ⟨hu, Γy, List.mem_append_right _ hy, hsy⟩
+      | brk σ3 => obtain ⟨Γy, hy, hsy⟩ := hc3; exact sat_pure ⟨Γy, List.mem_append_right _ hy, hsy⟩
+      | cont σ3 => obtain ⟨Γy, hy, hsy⟩ := hc3; exact sat_pure ⟨Γy, List.mem_append_right _ hy, hsy⟩
+    | ret u σ2 =>
+      obtain ⟨hu, Γx, hx, hsx⟩ := hc2
+      refine sat_bind (abnormal Γx (Or.inr (Or.inl hx)) hsx) ?_
+      intro st3 c3 e3 hc3
+      cases c3 with
+      | normal σ3 =>
+        obtain ⟨ΓA, hΓA, hsA⟩ := hc3
+        exact sat_pure ⟨hasTy_ext e3 hu, ΓA, by simp [optList, hΓA], hsA⟩
+      | ret v σ3 =>
+        obtain ⟨hv, Γy, hy, hsy⟩ := hc3
+        exact sat_pure ⟨hv, Γy, List.mem_append_left _ (List.mem_append_right _ hy), hsy⟩
+      | exc f σ3 =>
+        obtain ⟨hv, Γy, hy, hsy⟩ := hc3
+        exact sat_pure ⟨hv, Γy, List.mem_append_left _ (List.mem_append_right _ hy), hsy⟩
+      | brk σ3 => obtain ⟨Γy, hy, hsy⟩ := hc3; exact sat_pure ⟨Γy, List.mem_append_left _ (List.mem_append_right _ hy), hsy⟩
+      | cont σ3 => obtain ⟨Γy, hy, hsy⟩ := hc3; exact sat_pure ⟨Γy, List.mem_append_left _ (List.mem_append_right _ hy), hsy⟩
+    | exc f σ2 =>
+      obtain ⟨hu, Γx, hx, hsx⟩ := hc2
+      refine sat_bind (abnormal Γx (Or.inl hx) hsx) ?_
+      intro st3 c3 e3 hc3
+      cases c3 with
+      | normal σ3 =>
+        obtain ⟨ΓA, hΓA, hsA⟩ := hc3
+        exact sat_pure ⟨hu, ΓA, by simp [optList, hΓA], hsA⟩
+      | ret v σ3 =>
+        obtain ⟨hv, Γy, hy, hsy⟩ := hc3
+        exact sat_pure ⟨hv, Γy, List.mem_append_left _ (List.mem_append_right _ hy), hsy⟩
+      | exc g σ3 =>
+        obtain ⟨hv, Γy, hy, hsy⟩ := hc3
+        exact sat_pure ⟨hv, Γy, List.mem_append_left _ (List.mem_append_right _ hy), hsy⟩
+      | brk σ3 => obtain ⟨Γy, hy, hsy⟩ := hc3; exact sat_pure ⟨Γy, List.mem_append_left _ (List.mem_append_right _ hy), hsy⟩
+      | cont σ3 => obtain ⟨Γy, hy, hsy⟩ := hc3; exact sat_pure ⟨Γy, List.mem_append_left _ (List.mem_append_right _ hy), hsy⟩
+    | brk σ2 =>
+      obtain ⟨Γx, hx, hsx⟩ := hc2
+      -- a pending break keeps the state recorded at the jump: the clause assigns no local (hole 6 otherwise)
+      have hna : assignsLocals fin = false := by
+        simp only [Bool.or_eq_true, Bool.and_eq_true, List.isEmpty_iff, Bool.not_eq_true'] at hjump
+        rcases hjump with ⟨h1, _⟩ | h1
+        · rw [h1] at hx; simp at hx
+        · exact h1
+      refine sat_bind (sat_strengthen (abnormal Γx (Or.inr (Or.inr (Or.inl hx))) hsx)
+        (fun c st' h => evalS_noassign n fin σ2 st2 hna c st' h)) ?_
+      intro st3 c3 e3 hc3
+      obtain ⟨hc3, hstore⟩ := hc3
+      cases c3 with
+      | normal σ3 =>
+        simp only [Ctl.store] at hstore; subst hstore
+        exact sat_pure ⟨Γx, List.mem_append_left _ (List.mem_append_left _ hx), hsx.ext e3⟩
+      | ret v σ3 =>
+        obtain ⟨hv, Γy, hy, hsy⟩ := hc3
+        exact sat_pure ⟨hv, Γy, List.mem_append_left _ (List.mem_append_right _ hy), hsy⟩
+      | exc g σ3 =>
+        obtain ⟨hv, Γy, hy, hsy⟩ := hc3
+        exact sat_pure ⟨hv, Γy, List.mem_append_left _ (List.mem_append_right _ hy), hsy⟩
+      | brk σ3 => obtain ⟨Γy, hy, hsy⟩ := hc3; exact sat_pure ⟨Γy, List.mem_append_left _ (List.mem_append_right _ hy), hsy⟩
+      | cont σ3 => obtain ⟨Γy, hy, hsy⟩ := hc3; exact sat_pure ⟨Γy, List.mem_append_left _ (List.mem_append_right _ hy), hsy⟩
+    | cont σ2 =>
+      obtain ⟨Γx, hx, hsx⟩ := hc2
+      have hna : assignsLocals fin = false := by
+        simp only [Bool.or_eq_true, Bool.and_eq_true, List.isEmpty_iff, Bool.not_eq_true'] at hjump
+        rcases hjump with ⟨_, h1⟩ | h1
+        · rw [h1] at hx; simp at hx
+        · exact h1
+      refine sat_bind (sat_strengthen (abnormal Γx (Or.inr (Or.inr (Or.inr hx))) hsx)
+        (fun c st' h => evalS_noassign n fin σ2 st2 hna c st' h)) ?_
+      intro st3 c3 e3 hc3
+      obtain ⟨hc3, hstore⟩ := hc3
+      cases c3 with
+      | normal σ3 =>
+        simp only [Ctl.store] at hstore; subst hstore
+        exact sat_pure ⟨Γx, List.mem_append_left _ (List.mem_append_left _ hx), hsx.ext e3⟩
+      | ret v σ3 =>
+        obtain ⟨hv, Γy, hy, hsy⟩ := hc3
+        exact sat_pure ⟨hv, Γy, List.mem_append_left _ (List.mem_append_right _ hy), hsy⟩
+      | exc g σ3 =>
+        obtain ⟨hv, Γy, hy, hsy⟩ := hc3
+        exact sat_pure ⟨hv, Γy, List.mem_append_left _ (List.mem_append_right _ hy), hsy⟩
+      | brk σ3 => obtain ⟨Γy, hy, hsy⟩ := hc3; exact sat_pure ⟨Γy, List.mem_append_left _ (List.mem_append_right _ hy), hsy⟩
+      | cont σ3 => obtain ⟨Γy, hy, hsy⟩ := hc3; exact sat_pure ⟨Γy, List.mem_append_left _ (List.mem_append_right _ hy), hsy⟩
+
 /-! ## One step of the induction on the fuel: statements -/
 
 theorem stmt_step (t : Typed P tm) {n : Nat} (ih : ∀ m, m ≤ n → EvalOK P tm m) : StmtOK P tm (n + 1) := by
@@ -112,6 +519,9 @@ theorem stmt_step (t : Typed P tm) {n : Nat} (ih : ∀ m, m ≤ n → EvalOK P t
   | cont =>
     simp only [tcS, pure_ok] at htc; subst htc
     simp only [evalS]; exact sat_pure ⟨Γ, by simp, hst⟩
+  | raise kx =>
+    simp only [tcS, pure_ok] at htc; subst htc
+    simp only [evalS]; exact sat_pure ⟨trivial, Γ, by simp, hst⟩
   | decl x e =>
     simp only [tcS] at htc
     cases hx : C.decl[x]? with
@@ -122,7 +532,8 @@ theorem stmt_step (t : Typed P tm) {n : Nat} (ih : ∀ m, m ≤ n → EvalOK P t
       obtain ⟨_, hnone, r0, hr0, _, hsub, hr⟩ := htc
       subst hr
       simp only [evalS]
-      refine sat_bind (ihn.expr k C Γ false false e r0 σ st rfl hr0 hrecs hst) ?_
+      refine sat_liftE (ihn.expr k C Γ false false e r0 σ st rfl hr0 hrecs hst) ?_
+        (fun st1 e e1 hb => ⟨hb, Γ, by simp, hst.ext e1⟩)
       intro st1 v e1 hv
       apply sat_pure
       refine ⟨Γ, rfl, (hst.ext e1).declare hx ?_ (subTy_sound w hsub hv.1)⟩
@@ -140,7 +551,8 @@ theorem stmt_step (t : Typed P tm) {n : Nat} (ih : ∀ m, m ≤ n → EvalOK P t
       subst hr
       simp only [Bool.and_eq_true] at hsub
       simp only [evalS]
-      refine sat_bind (ihn.expr k C Γ false false e r0 σ st rfl hr0 hrecs hst) ?_
+      refine sat_liftE (ihn.expr k C Γ false false e r0 σ st rfl hr0 hrecs hst) ?_
+        (fun st1 e e1 hb => ⟨hb, Γ, by simp, hst.ext e1⟩)
       intro st1 v e1 hv
       apply sat_pure
       refine ⟨Γ, rfl, (hst.ext e1).declare hx ?_ (subTy_sound w hsub.1.2 hv.1)⟩
@@ -157,7 +569,8 @@ theorem stmt_step (t : Typed P tm) {n : Nat} (ih : ∀ m, m ≤ n → EvalOK P t
       obtain ⟨r0, hr0, _, _, hr⟩ := htc
       subst hr
       simp only [evalS]
-      refine sat_bind (ihn.expr k C Γ false false e r0 σ st rfl hr0 hrecs hst) ?_
+      refine sat_liftE (ihn.expr k C Γ false false e r0 σ st rfl hr0 hrecs hst) ?_
+        (fun st1 e e1 hb => ⟨hb, Γ, by simp, hst.ext e1⟩)
       intro st1 v e1 hv
       exact sat_pure ⟨_, rfl, (hst.ext e1).assign hv.1⟩
   | setAttr o f e =>
@@ -167,12 +580,15 @@ theorem stmt_step (t : Typed P tm) {n : Nat} (ih : ∀ m, m ≤ n → EvalOK P t
     · next hall =>
       simp only [pure_ok] at htc; subst htc
       simp only [evalS]
-      refine sat_bind (ihn.expr k C Γ false false e re σ st rfl hre (fun x hx => hrecs x (List.mem_append_right _ hx)) hst) ?_
+      refine sat_liftE (ihn.expr k C Γ false false e re σ st rfl hre (fun x hx => hrecs x (List.mem_append_right _ hx)) hst) ?_
+        (fun st1 e e1 hb => ⟨hb, Γ, by simp, hst.ext e1⟩)
       intro st1 v e1 hv
-      refine sat_bind (ihn.expr k C Γ false false o ro σ st1 rfl hro (fun x hx => hrecs x (List.mem_append_left _ hx)) (hst.ext e1)) ?_
+      refine sat_liftE (ihn.expr k C Γ false false o ro σ st1 rfl hro (fun x hx => hrecs x (List.mem_append_left _ hx)) (hst.ext e1)) ?_
+        (fun st2 e e2 hb => ⟨hb, Γ, by simp, (hst.ext e1).ext e2⟩)
       intro st2 ov e2 hov
       simp only [List.all_eq_true] at hall
-      refine sat_bind (sat_putAttr w hov.1 hts hall (hasTy_ext e2 hv.1)) ?_
+      refine sat_liftE (sat_putAttr w hov.1 hts hall (hasTy_ext e2 hv.1)) ?_
+        (fun st3 e e3 hb => ⟨hb, Γ, by simp, ((hst.ext e1).ext e2).ext e3⟩)
       intro st3 _ e3 _
       exact sat_pure ⟨Γ, rfl, ((hst.ext e1).ext e2).ext e3⟩
     · split at htc <;> cases htc
@@ -181,7 +597,8 @@ theorem stmt_step (t : Typed P tm) {n : Nat} (ih : ∀ m, m ≤ n → EvalOK P t
     obtain ⟨r0, hr0, hr⟩ := htc
     subst hr
     simp only [evalS]
-    refine sat_bind (ihn.expr k C Γ true false e r0 σ st rfl hr0 hrecs hst) ?_
+    refine sat_liftE (ihn.expr k C Γ true false e r0 σ st rfl hr0 hrecs hst) ?_
+      (fun st1 e e1 hb => ⟨hb, Γ, by simp, hst.ext e1⟩)
     intro st1 v e1 _
     exact sat_pure ⟨Γ, rfl, hst.ext e1⟩
   | ret e =>
@@ -189,16 +606,19 @@ theorem stmt_step (t : Typed P tm) {n : Nat} (ih : ∀ m, m ≤ n → EvalOK P t
     obtain ⟨r0, hr0, _, hsub, hr⟩ := htc
     subst hr
     simp only [evalS]
-    refine sat_bind (ihn.expr k C Γ _ false e r0 σ st rfl hr0 hrecs hst) ?_
+    refine sat_liftE (ihn.expr k C Γ _ false e r0 σ st rfl hr0 hrecs hst) ?_
+      (fun st1 e e1 hb => ⟨hb, Γ, by simp, hst.ext e1⟩)
     intro st1 v e1 hv
-    exact sat_pure (subTy_sound w hsub hv.1)
+    exact sat_pure ⟨subTy_sound w hsub hv.1, Γ, by simp, hst.ext e1⟩
   | ite c tb eb =>
     simp only [tcS, bind_ok, req_ok, pure_ok] at htc
     obtain ⟨rc, hrc, _, _, rt, hrt, re, hre, m, hm, hr⟩ := htc
     subst hr
+    simp only [SRes.join] at hrecs ⊢
     simp only [evalS]
-    refine sat_bind (ihn.expr k C Γ false true c rc σ st rfl hrc
-      (fun x hx => hrecs x (List.mem_append_left _ (List.mem_append_left _ hx))) hst) ?_
+    refine sat_liftE (ihn.expr k C Γ false true c rc σ st rfl hrc
+      (fun x hx => hrecs x (List.mem_append_left _ hx)) hst) ?_
+      (fun st1 e e1 hb => ⟨hb, Γ, by simp, hst.ext e1⟩)
     intro st1 v e1 hv
     cases htv : truthy v with
     | true =>
@@ -206,10 +626,13 @@ theorem stmt_step (t : Typed P tm) {n : Nat} (ih : ∀ m, m ≤ n → EvalOK P t
       obtain ⟨Γt, hΓt, hstt⟩ := (hv.2.1 htv).push false (hst.ext e1)
       rw [hΓt] at hrt
       refine sat_mono (ihn.stmt k C Γt tb rt σ st1 rfl hrt
-        (fun x hx => hrecs x (List.mem_append_left _ (List.mem_append_right _ hx))) hstt) ?_
+        (fun x hx => hrecs x (List.mem_append_right _ (List.mem_append_left _ hx))) hstt) ?_
       intro st2 ctl _ hctl
       cases ctl with
-      | ret u => exact hctl
+      | ret u σ' => obtain ⟨hu, Γb, hΓb, hstb⟩ := hctl; exact ⟨hu, Γb, List.mem_append_left _ hΓb, hstb⟩
+      | exc f σ' =>
+        obtain ⟨hu, Γb, hΓb, hstb⟩ := hctl
+        exact ⟨hu, Γb, List.mem_cons_of_mem _ (List.mem_append_left _ hΓb), hstb⟩
       | normal σ' =>
         obtain ⟨Γb, hΓb, hstb⟩ := hctl
         exact mergeEnvs_sound w hm (b := Γb) (by rw [← hΓb]; simp) hstb
@@ -220,10 +643,13 @@ theorem stmt_step (t : Typed P tm) {n : Nat} (ih : ∀ m, m ≤ n → EvalOK P t
       obtain ⟨Γe, hΓe, hste⟩ := (hv.2.2 htv).push false (hst.ext e1)
       rw [hΓe] at hre
       refine sat_mono (ihn.stmt k C Γe eb re σ st1 rfl hre
-        (fun x hx => hrecs x (List.mem_append_right _ hx)) hste) ?_
+        (fun x hx => hrecs x (List.mem_append_right _ (List.mem_append_right _ hx))) hste) ?_
       intro st2 ctl _ hctl
       cases ctl with
-      | ret u => exact hctl
+      | ret u σ' => obtain ⟨hu, Γb, hΓb, hstb⟩ := hctl; exact ⟨hu, Γb, List.mem_append_right _ hΓb, hstb⟩
+      | exc f σ' =>
+        obtain ⟨hu, Γb, hΓb, hstb⟩ := hctl
+        exact ⟨hu, Γb, List.mem_cons_of_mem _ (List.mem_append_right _ hΓb), hstb⟩
       | normal σ' =>
         obtain ⟨Γb, hΓb, hstb⟩ := hctl
         exact mergeEnvs_sound w hm (b := Γb) (by rw [← hΓb]; simp) hstb
@@ -242,7 +668,8 @@ theorem stmt_step (t : Typed P tm) {n : Nat} (ih : ∀ m, m ≤ n → EvalOK P t
           let m2 ← mergeEnvs C.P C.decl L (some L :: m1.1 :: rb.conts.map some)
           match m2.1 with
           | none => Except.error (TcErr.stuck 5)
-          | some L' => pure ({ next := L', changed := m2.2, exit := pushMap L' true rc.no, recs := rc.recs ++ rb.recs, brks := rb.brks } : Pass)) = .ok p →
+          | some L' => pure ({ next := L', changed := m2.2, exit := pushMap L' true rc.no, body := rb,
+                               recs := rc.recs ++ rb.recs, head := L } : Pass)) = .ok p →
         ∀ (h : Heap) (σ : Store), StoreOK C.P h C.decl L σ → StoreOK C.P h C.decl p.next σ := by
       intro L p hp h σ s
       simp only [bind_ok, req_ok] at hp
@@ -266,7 +693,8 @@ theorem stmt_step (t : Typed P tm) {n : Nat} (ih : ∀ m, m ≤ n → EvalOK P t
       refine sat_mono hloop ?_
       intro st2 ctl _ hctl
       cases ctl with
-      | ret u => exact hctl
+      | ret u σ' => exact hctl
+      | exc f σ' => exact hctl
       | normal σ' =>
         rcases hctl with ⟨Γe, hΓe, hste⟩ | ⟨Γb, hΓb, hstb⟩
         · exact mergeEnvs_sound w hm (b := Γe) (by rw [← hΓe]; simp) hste
@@ -278,11 +706,13 @@ theorem stmt_step (t : Typed P tm) {n : Nat} (ih : ∀ m, m ≤ n → EvalOK P t
     simp only [tcS, bind_ok, pure_ok] at htc
     obtain ⟨ra, hra, rb, hrb, hr⟩ := htc
     subst hr
+    simp only [SRes.join] at hrecs ⊢
     simp only [evalS]
     refine sat_bind (ihn.stmt k C Γ a ra σ st rfl hra (fun x hx => hrecs x (List.mem_append_left _ hx)) hst) ?_
     intro st1 ctl e1 hctl
     cases ctl with
-    | ret u => exact sat_pure hctl
+    | ret u σ' => obtain ⟨hu, Γb, hΓb, hstb⟩ := hctl; exact sat_pure ⟨hu, Γb, List.mem_append_left _ hΓb, hstb⟩
+    | exc f σ' => obtain ⟨hu, Γb, hΓb, hstb⟩ := hctl; exact sat_pure ⟨hu, Γb, List.mem_append_left _ hΓb, hstb⟩
     | brk σ' => obtain ⟨Γb, hΓb, hstb⟩ := hctl; exact sat_pure ⟨Γb, List.mem_append_left _ hΓb, hstb⟩
     | cont σ' => obtain ⟨Γb, hΓb, hstb⟩ := hctl; exact sat_pure ⟨Γb, List.mem_append_left _ hΓb, hstb⟩
     | normal σ' =>
@@ -291,10 +721,13 @@ theorem stmt_step (t : Typed P tm) {n : Nat} (ih : ∀ m, m ≤ n → EvalOK P t
       refine sat_mono (ihn.stmt k C Γ1 b rb σ' st1 rfl hrb (fun x hx => hrecs x (List.mem_append_right _ hx)) hst1) ?_
       intro st2 ctl _ hctl
       cases ctl with
-      | ret u => exact hctl
+      | ret u σ'' => obtain ⟨hu, Γb, hΓb, hstb⟩ := hctl; exact ⟨hu, Γb, List.mem_append_right _ hΓb, hstb⟩
+      | exc f σ'' => obtain ⟨hu, Γb, hΓb, hstb⟩ := hctl; exact ⟨hu, Γb, List.mem_append_right _ hΓb, hstb⟩
       | normal σ'' => exact hctl
       | brk σ'' => obtain ⟨Γb, hΓb, hstb⟩ := hctl; exact ⟨Γb, List.mem_append_right _ hΓb, hstb⟩
       | cont σ'' => obtain ⟨Γb, hΓb, hstb⟩ := hctl; exact ⟨Γb, List.mem_append_right _ hΓb, hstb⟩
+  | tryS b kinds hd els fin hasFin =>
+    exact try_case t ihn rfl hst htc hrecs
 
 /-! ## The induction -/
 
